@@ -237,15 +237,12 @@ CHECKS = {
         text="A public StorageData wrapper around the real FileStorage (no hook) makes the k-th write/resize call of a query "
              "fail. For every step of generated histories and every sampled k the step runs on a copy of the database with call "
              "k failing, followed by later mutations, close, and reopen with DbFile and Db. Each probe is one run of the trace; "
-             "DbTrace.tla requires: the faulted step reports an error and leaves the model state unchanged (Unchanged13), every "
-             "later step behaves as DbModel says (usable), and the dumps after reopen equal the model state (nothing lost, file "
-             "readable). On this tree the property is violated by defect D15 (no physical rollback); the seven observed "
-             "symptoms are listed in known_findings.json, any other symptom (error swallowed, file unreadable after reopen, "
-             "panic on close/reopen) is reported as a violation.",
-        design="3.1, 4 C32, 6 D15",
+             "DbTrace.tla (skip mode) requires: the faulted step reports an error and leaves the model state unchanged "
+             "(Unchanged13), every later step behaves as DbModel says (the database stays usable), and the dumps after reopen "
+             "equal the model state (nothing lost, file readable).",
+        design="B.3.1, B.4 C32, A.3 D15",
         note="a fault is one StorageData call failing before anything reaches the file, one fault per probe; at most 16 (quick) / 40 "
-             "(thorough) fault points per step; known-finding signatures are symptom classes, so a new defect with an already "
-             "listed symptom is not distinguished from D15",
+             "(thorough) fault points per step; the wrapper forwards StorageData::rollback to the real FileStorage",
         technique="fault injection at every storage call of the real database, each run decided by TLA+ trace validation (TLC)",
         engine="vdb"),
 }
